@@ -30,6 +30,9 @@ pub enum EditOp {
     RemoveSource(String),
     /// The command of the step with this first output now reports these.
     Reports(String, Vec<String>),
+    /// The command of this step stops writing its depfile (and the old one
+    /// is gone); the source changed.
+    DepfileGone(String),
     /// Replace the manifest by variant n.
     Variant(usize),
     /// Touch the generator input; the generator will write variant n.
@@ -106,13 +109,17 @@ pub fn templates() -> Vec<Template> {
         };
         for msvc in [false, true] {
             let base = Project {
-                steps: vec![obj("CC", msvc), st("bin", "LD", vec![e("obj"), e("lib.in")])],
+                // (a third step declares a header as its own input that obj may
+                // also discover)
+                steps: vec![obj("CC", msvc), st("bin", "LD", vec![e("obj"), e("lib.in")]), st("tool", "TOOL", vec![e("tool.in"), e("hdr2.h")])],
                 ..Default::default()
             };
             let mut v_cmd = base.clone();
             v_cmd.steps[0].cmdline = "CC -O2".into();
             let mut v_extra = base.clone();
-            v_extra.steps.insert(0, st("other", "OTHER", vec![e("other.in")]));
+            // (the unrelated step mentions a header that obj only discovers,
+            // which changes the order in which files are numbered)
+            v_extra.steps.insert(0, st("other", "OTHER", vec![e("other.in"), e("hdr2.h")]));
             v_extra.preamble = "# a comment\nunused = 1\n".into();
             let mut v_reorder = base.clone();
             v_reorder.steps.reverse();
@@ -120,9 +127,13 @@ pub fn templates() -> Vec<Template> {
             v_newin.steps[1].ins.push(e("extra.in"));
             let mut v_default = base.clone();
             v_default.defaults = vec!["obj".into()];
+            // the compile step stops reporting dependencies altogether
+            let mut v_noreport = base.clone();
+            v_noreport.steps[0].depfile = None;
+            v_noreport.steps[0].msvc = false;
             out.push(Template {
                 name: if msvc { "msvc-chain" } else { "depfile-chain" },
-                variants: vec![base, v_cmd, v_extra, v_reorder, v_newin, v_default],
+                variants: vec![base, v_cmd, v_extra, v_reorder, v_newin, v_default, v_noreport],
                 manifest_name: "build.ninja".into(),
                 headers: vec!["hdr.h".into(), "hdr2.h".into()],
                 reports: [("obj".to_string(), vec!["hdr.h".to_string()])].into_iter().collect(),
@@ -143,7 +154,8 @@ pub fn templates() -> Vec<Template> {
                 fail_cmds: vec!["CC".into(), "LD".into()],
                 generator: false,
                 removable_sources: vec!["lib.in".into()],
-                variant_reports: BTreeMap::new(),
+                // dropping the dependency reporting comes with a source edit
+                variant_reports: [(6usize, [("obj".to_string(), Vec::<String>::new())].into_iter().collect::<BTreeMap<String, Vec<String>>>())].into_iter().collect(),
             skip_outputs: vec![],
             side_touch: BTreeMap::new(),
             });
@@ -411,15 +423,25 @@ pub fn templates() -> Vec<Template> {
 
 /// Which templates a property's check walks.
 pub fn jobs(prop: &str, tier: Tier) -> Vec<(String, u64)> {
-    let depth = tier.pick(2, 3);
     let names: Vec<&str> = match prop {
-        "C02" | "C03" => vec!["depfile-chain", "msvc-chain", "diamond", "two-outputs", "generated-header", "rspfile", "restat-upstream", "two-objects", "self-touch", "generator"],
+        "C02" | "C03" if tier == Tier::Quick => vec!["depfile-chain", "diamond", "two-outputs", "generated-header", "rspfile", "restat-upstream", "two-objects", "self-touch", "generator-split"],
+        "C02" | "C03" => vec!["depfile-chain", "msvc-chain", "diamond", "two-outputs", "generated-header", "rspfile", "restat-upstream", "two-objects", "self-touch", "generator", "generator-f", "generator-split"],
         "C08" => vec!["depfile-chain", "two-outputs", "rspfile", "diamond"],
         "C09" => vec!["depfile-chain", "msvc-chain", "generated-header", "two-outputs", "two-objects", "self-touch"],
         "C17" => vec!["generator", "generator-f", "generator-split"],
+        "C19" => vec!["depfile-chain", "generator"],
+        "C15" => vec!["depfile-chain"],
         _ => vec![],
     };
-    names.into_iter().map(|n| (format!("hist:{}:{}", n, depth), 16)).collect()
+    // quick: depth 2, full alphabet in round one, builds + restat in round two
+    let mut v: Vec<(String, u64)> = names.iter().map(|n| (format!("hist:{}:{}", n, tier.pick("2q", "2")), 16)).collect();
+    if tier == Tier::Thorough {
+        // thorough adds a depth-2 walk whose first round takes every
+        // compatible pair of edits, and a depth-3 walk with single edits
+        v.extend(names.iter().map(|n| (format!("hist:{}:2p", n), 16)));
+        v.extend(names.iter().map(|n| (format!("hist:{}:3", n), 16)));
+    }
+    v
 }
 
 // ---------------------------------------------------------------------------
@@ -551,6 +573,11 @@ pub fn edit_alphabet(t: &Template, node: &Node) -> Vec<EditOp> {
             }
         }
     }
+    for st in &p.steps {
+        if st.depfile.is_some() && !node.sim.raw_depfile.contains_key(&st.outs[0]) {
+            v.push(EditOp::DepfileGone(st.outs[0].clone()));
+        }
+    }
     for i in 0..t.variants.len() {
         if t.generator {
             v.push(EditOp::GenVariant(i));
@@ -574,6 +601,7 @@ pub fn apply_edit(t: &Template, node: &mut Node, op: &EditOp) {
             }
         }
         EditOp::Reports(k, r) => {
+            node.sim.raw_depfile.remove(k);
             node.sim.reports.insert(k.clone(), r.clone());
             // What a compiler reports changes because the source changed.
             let src = node
@@ -586,6 +614,22 @@ pub fn apply_edit(t: &Template, node: &mut Node, op: &EditOp) {
             if let Some(src) = src {
                 if node.sim.project().producer(&src).is_none() {
                     node.sim.touch(&src);
+                }
+            }
+        }
+        EditOp::DepfileGone(k) => {
+            node.sim.raw_depfile.insert(k.clone(), "<none>".into());
+            node.sim.reports.insert(k.clone(), Vec::new());
+            let stp = node.sim.project().steps.iter().find(|s| s.outs[0] == *k).cloned();
+            if let Some(stp) = stp {
+                if let Some(df) = &stp.depfile {
+                    let _ = std::fs::remove_file(df);
+                }
+                if let Some(src) = stp.dirtying_ins().first() {
+                    if node.sim.project().producer(src).is_none() {
+                        let src = (*src).clone();
+                        node.sim.touch(&src);
+                    }
                 }
             }
         }
@@ -638,8 +682,11 @@ pub fn inv_alphabet(t: &Template, round: usize, full: bool) -> Vec<Inv> {
         v.push(Inv::BuildAllOrders);
     }
     if !full {
+        // Depth-3 walks: a reduced alphabet in the first two rounds.
         v.push(Inv::Fail(t.fail_cmds[0].clone(), None));
-        v.push(Inv::Kill(1, true));
+        if round == 0 {
+            v.push(Inv::Kill(1, true));
+        }
         return v;
     }
     for tg in &t.targets {
@@ -652,6 +699,19 @@ pub fn inv_alphabet(t: &Template, round: usize, full: bool) -> Vec<Inv> {
     v.push(Inv::Kill(1, false));
     v.push(Inv::Kill(1, true));
     v.push(Inv::Kill(2, true));
+    v.push(Inv::Restat(vec![]));
+    // restat tolerates names it does not know (CMake passes such)
+    v.push(Inv::Restat(vec!["nosuch.file".into()]));
+    v
+}
+
+/// Last round of a depth-3 walk: builds only (what earlier rounds left
+/// behind must be repaired by an ordinary build).
+fn final_round_alphabet(t: &Template) -> Vec<Inv> {
+    let mut v = vec![Inv::Build(vec![])];
+    for tg in &t.targets {
+        v.push(Inv::Build(tg.clone()));
+    }
     v.push(Inv::Restat(vec![]));
     v
 }
@@ -773,6 +833,12 @@ pub fn judge(t: &Template, before: &Sim, run: &Run, targets: &[String], expect_s
             ));
         }
     }
+    if let BuildResult::Success(n) = &run.result {
+        let succeeded = sim.ran.iter().skip(before.ran.len()).filter(|r| r.term == Term::Success).count();
+        if *n != succeeded {
+            f.push(("ran-count-wrong".into(), format!("the invocation reports {} tasks run; {} commands completed successfully", n, succeeded)));
+        }
+    }
     if adopt && sim.ran.len() > before.ran.len() {
         f.push(("restat-ran-commands".into(), "commands were run in restat (adopt) mode".into()));
     }
@@ -834,9 +900,26 @@ pub fn judge(t: &Template, before: &Sim, run: &Run, targets: &[String], expect_s
     }
     // C02: everything wanted is up to date and carries clean-build content.
     let clean = clean_tags(sim);
+    // Not judged: steps that remember a dependency on a generated file they
+    // are not ordered after (a race by construction, n2's documented error),
+    // and, for content, steps adopted by restat and everything built from
+    // them since.
+    let racy = |s: usize| -> bool {
+        let hit = |m: &Model| m.discovered(p, s).iter().any(|d| match p.producer(d) {
+            Some(q) => !p.ord_pred(s).contains(&q),
+            None => false,
+        });
+        hit(&sim.model) || hit(&before.model)
+    };
+    let adopted_upstream = |s: usize| -> bool {
+        std::iter::once(s).chain(p.ord_pred(s).into_iter()).any(|q| sim.adopted.contains(&p.steps[q].outs[0]))
+    };
     for &s in &wanted {
         let stp = &p.steps[s];
         if stp.phony {
+            continue;
+        }
+        if racy(s) || p.ord_pred(s).iter().any(|&q| racy(q)) {
             continue;
         }
         if stp.all_outs().any(|o| sim.skip_outputs.contains(o)) {
@@ -845,6 +928,9 @@ pub fn judge(t: &Template, before: &Sim, run: &Run, targets: &[String], expect_s
         let d = sim.model.is_dirty(p, s);
         if d.is_dirty() {
             f.push(("skipped-although-out-of-date".into(), format!("{} was not rebuilt although it is out of date: {:?}", stp.outs[0], d)));
+            continue;
+        }
+        if adopted_upstream(s) {
             continue;
         }
         for o in stp.all_outs() {
@@ -870,19 +956,28 @@ pub struct Walk<'a> {
     pub job: String,
     pub depth: usize,
     pub max_edit_set: usize,
+    /// Pairs-only walk: round one takes only edit pairs, round two the
+    /// reduced alphabet (the single-edit walk is a separate job).
+    pub pairs_only: bool,
+    /// The walk starts from a never-built tree: the first round has no edits
+    /// (edits before the first build ever are meaningless).
+    pub fresh_root: bool,
+    /// Quick form: the last round uses the reduced (builds + restat) alphabet.
+    pub reduced_last: bool,
     pub res: &'a mut ShardResult,
     pub path: Vec<Value>,
 }
 
 impl<'a> Walk<'a> {
     fn report(&mut self, findings: Findings, what: &str) {
-        const C03_KEYS: [&str; 3] = ["ran-although-up-to-date", "repeated-build-not-a-no-op", "restat-ran-commands"];
+        const C03_KEYS: [&str; 4] = ["ran-although-up-to-date", "repeated-build-not-a-no-op", "restat-ran-commands", "ran-count-wrong"];
         for (k, d) in findings {
             // C02 and C03 share the walk; each reports its own clauses.
             let is_c03 = C03_KEYS.contains(&k.as_str());
             match self.prop.as_str() {
                 "C02" if is_c03 => continue,
                 "C03" if !is_c03 && !k.starts_with("panic") => continue,
+                "C19" if k != "ran-count-wrong" && !k.starts_with("panic") => continue,
                 _ => {}
             }
             let path = self.path.clone();
@@ -1025,6 +1120,7 @@ impl<'a> Walk<'a> {
                     for s in p.topo(&wanted) {
                         if next_sim.model.is_dirty(&p, s).is_dirty() {
                             next_sim.model.adopt(&p, s);
+                            next_sim.adopted.insert(p.steps[s].outs[0].clone());
                         }
                     }
                     // Restat declares the present contents correct: from now on
@@ -1105,7 +1201,13 @@ impl<'a> Walk<'a> {
         for e1 in &edits {
             sets.push(vec![e1.clone()]);
         }
-        if self.max_edit_set >= 2 && round == 0 {
+        if self.pairs_only && round == 0 {
+            sets.clear();
+        }
+        if self.fresh_root && round == 0 {
+            sets = vec![vec![]];
+        }
+        if self.max_edit_set >= 2 && round == 0 && self.depth <= 2 {
             for (i, e1) in edits.iter().enumerate() {
                 for e2 in edits.iter().skip(i + 1) {
                     if compatible(e1, e2) {
@@ -1114,8 +1216,15 @@ impl<'a> Walk<'a> {
                 }
             }
         }
-        let full = round + 1 == self.depth || self.depth <= 2;
-        let invs = inv_alphabet(self.t, round, full);
+        let invs = if (self.pairs_only || self.reduced_last) && round + 1 == self.depth && round > 0 {
+            final_round_alphabet(self.t)
+        } else if self.depth <= 2 {
+            inv_alphabet(self.t, round, true)
+        } else if round + 1 == self.depth {
+            final_round_alphabet(self.t)
+        } else {
+            inv_alphabet(self.t, round, false)
+        };
         let mut child = 0u64;
         for set in &sets {
             for inv in &invs {
@@ -1161,6 +1270,7 @@ fn compatible(a: &EditOp, b: &EditOp) -> bool {
         (EditOp::Variant(_), EditOp::Variant(_)) => false,
         (EditOp::GenVariant(_), EditOp::GenVariant(_)) => false,
         (EditOp::Reports(x, _), EditOp::Reports(y, _)) => x != y,
+        (EditOp::Reports(x, _), EditOp::DepfileGone(y)) | (EditOp::DepfileGone(x), EditOp::Reports(y, _)) => x != y,
         (EditOp::RemoveOut(x), EditOp::TouchOut(y)) | (EditOp::TouchOut(x), EditOp::RemoveOut(y)) => x != y,
         (EditOp::Touch(x), EditOp::RemoveHeader(y)) | (EditOp::RemoveHeader(x), EditOp::Touch(y)) => x != y,
         _ => true,
@@ -1173,7 +1283,9 @@ pub fn run(ctx: &mut Ctx) -> ShardResult {
     let job = ctx.job.clone();
     let parts: Vec<&str> = job.split(':').collect();
     let tname = parts[1];
-    let depth: usize = parts[2].parse().expect("depth");
+    let pairs_only = parts[2].ends_with('p');
+    let reduced_last = parts[2].ends_with('q');
+    let depth: usize = parts[2].trim_end_matches(['p', 'q']).parse().expect("depth");
     let all = templates();
     let t = all.iter().find(|t| t.name == tname).expect("template");
     let mut w = Walk {
@@ -1181,7 +1293,10 @@ pub fn run(ctx: &mut Ctx) -> ShardResult {
         prop: ctx.prop.clone(),
         job: job.clone(),
         depth,
-        max_edit_set: if ctx.tier == Tier::Thorough { 2 } else { 1 },
+        max_edit_set: if pairs_only { 2 } else { 1 },
+        pairs_only,
+        fresh_root: true,
+        reduced_last,
         res: &mut res,
         path: Vec::new(),
     };
@@ -1189,7 +1304,11 @@ pub fn run(ctx: &mut Ctx) -> ShardResult {
     if let Some(case) = ctx.replay.clone() {
         // Replay: follow the recorded path by matching the printed edits/inv.
         let mut node = root;
-        let path = case["path"].as_array().cloned().unwrap_or_default();
+        let mut path = case["path"].as_array().cloned().unwrap_or_default();
+        if path.first().map(|p| p.get("root").is_some()).unwrap_or(false) {
+            w.path.push(path.remove(0));
+            node = built_root(t, &node);
+        }
         for (round, stepv) in path.iter().enumerate() {
             let edits = edit_alphabet(t, &node);
             let mut sets: Vec<Vec<EditOp>> = vec![vec![]];
@@ -1206,6 +1325,7 @@ pub fn run(ctx: &mut Ctx) -> ShardResult {
             let set = sets.into_iter().find(|s| format!("{:?}", s) == want_e).expect("edit set of the recorded path");
             let mut invs = inv_alphabet(t, round, true);
             invs.extend(inv_alphabet(t, round, false));
+            invs.extend(final_round_alphabet(t));
             invs.push(Inv::BuildAllOrders);
             let inv = invs.into_iter().find(|i| format!("{:?}", i) == want_i).expect("invocation of the recorded path");
             let mut n2 = node.clone();
@@ -1219,8 +1339,30 @@ pub fn run(ctx: &mut Ctx) -> ShardResult {
         }
         return res;
     }
-    w.walk(&root, 0, Some((ctx.shard, ctx.nshards)), &ctx.marker);
+    // Two roots: the never-built tree (no edits before the first invocation)
+    // and the fully built tree.
+    if !pairs_only {
+        w.walk(&root, 0, Some((ctx.shard, ctx.nshards)), &ctx.marker);
+    }
+    let built = built_root(t, &root);
+    w.fresh_root = false;
+    w.path.push(json!({"root": "built"}));
+    w.walk(&built, 0, Some((ctx.shard, ctx.nshards)), &ctx.marker);
     res
+}
+
+/// The initial tree after one successful full build.
+fn built_root(t: &Template, root: &Node) -> Node {
+    exec::restore(&root.snap);
+    let (run, _) = run_once(t, root.sim.clone(), &[], 1, None, false, vec![], None);
+    let mut sim = run.sim;
+    let last = sim.project().clone();
+    sim.projects = vec![last];
+    Node {
+        snap: exec::snapshot(),
+        sim,
+        variant: root.variant,
+    }
 }
 
 pub fn case_from_marker(job: &str, bytes: &[u8]) -> Value {
